@@ -229,6 +229,14 @@ pub fn random_script(rng: &mut Rng, max_len: usize) -> Vec<Step> {
             st.wait = true;
         }
     }
+    if rng.chance(20) {
+        // a client that uses string request ids
+        for st in s.steps.iter_mut() {
+            if st.op.request_id().is_some() {
+                st.sid = true;
+            }
+        }
+    }
     if rng.chance(200) {
         // frames that carry the optional Content-Type header, before or after Content-Length
         for st in s.steps.iter_mut() {
@@ -431,6 +439,18 @@ pub fn sweep(seed: u64, k: u64, at: usize) -> Scenario {
 // ------------------------------------------------------------------------------------------
 
 pub fn judge(sc: &Scenario) -> Judgement {
+    let mut j = judge_inner(sc);
+    // identify what failed as precisely as the scenario allows (known-finding matching): sessions
+    // in which the client used string request ids
+    if sc.script.iter().any(|s| s.sid) {
+        for v in &mut j.violations {
+            v.signature.push_str(" [string request ids]");
+        }
+    }
+    j
+}
+
+fn judge_inner(sc: &Scenario) -> Judgement {
     let mut j = Judgement::default();
     let rec = runner::run(sc, &RunOptions::default());
     j.runs.push(RunStats::of(&rec));
